@@ -81,8 +81,8 @@ func (ps *PubSub) Publish(channel, message string) int {
 		if match.Match(channel, entry.channel) {
 			entry.sconn.writeMessage(entry.pattern, entry.channel, channel,
 				message)
+			sent++
 		}
-		sent++
 		return true
 	})
 
